@@ -31,12 +31,14 @@ M = [
     ("C01", PERM, "if compare_colours and lower_bound <= element <= upper_bound:", "if compare_colours and lower_bound <= element < upper_bound:", "caught", "value window off by one"),
     ("C01", PERM, "if elements_remaining < elements_needed:", "if elements_remaining <= elements_needed:", "caught", "'not enough elements left' cut off by one"),
     ("C01", PERM, "                while not deq[-1][0] <= val <= deq[0][0]:\n                    deq.rotate(1)", "                while not deq[-1][0] <= val <= deq[0][0]:\n                    deq.rotate(-1)", "equivalent", "rotation direction: the loop runs until the window condition holds either way"),
+    ("C01", PERM, "            self._cached_pattern_details = [\n                (\n                    floor,\n                    ceiling,\n                    val if floor == -1 else val - self[floor],\n                    len(self) - val if ceiling == -1 else self[ceiling] - val,\n                )\n                for val, (floor, ceiling) in zip(self, self.left_floor_and_ceiling())\n            ]\n", "            self._cached_pattern_details = details = []\n            for val, (floor, ceiling) in zip(self, self.left_floor_and_ceiling()):\n                details.append((floor, ceiling, val if floor == -1 else val - self[floor], len(self) - val if ceiling == -1 else self[ceiling] - val))\n", "caught", "pattern memo published before it is filled: only a search aborted part-way leaves it truncated"),
     # ---- C02
     ("C02", PSET, "for i in range(max(0, n - max_size), n):", "for i in range(max(0, n - max_size + 1), n):", "caught", "insertion window start"),
     ("C02", PSET, "for i in range(start, level_number - 1):", "for i in range(start, level_number):", "caught", "compaction reaches a level still needed"),
     ("C02", PSET, "if not check_length or new_perm not in smaller_elems:", "if True:", "caught", "basis element of the level's own length not removed"),
     ("C02", PSET, "start = max(0, len(self.cache) - 2)", "start = 0", "equivalent", "re-compacting compacted levels is idempotent"),
     ("C02", PSET, "acceptable.extend(k + 1 for k in spots if k >= val)", "acceptable.extend(k + 1 for k in spots if k > val)", "caught", "insertion spots"),
+    ("C02", PSET, "            for perm, lis in last_level.items():\n                for value in valid_insertions(perm):\n                    new_perm = perm.insert(index=nplusone, new_element=value)\n                    if not check_length or new_perm not in smaller_elems:\n                        new_level[new_perm] = []\n                        assert lis is not None\n                        lis.append(value)\n            self.cache.append(new_level)\n", "            self.cache.append(new_level)\n            for perm, lis in last_level.items():\n                for value in valid_insertions(perm):\n                    new_perm = perm.insert(index=nplusone, new_element=value)\n                    if not check_length or new_perm not in smaller_elems:\n                        new_level[new_perm] = []\n                        assert lis is not None\n                        lis.append(value)\n", "caught", "level published before it is filled: only an aborted request (or an open iterator) sees it"),
     # ---- C03
     ("C03", MESH, "1 for candidate_element in candidate if candidate_element < element", "1 for candidate_element in candidate if candidate_element <= element", "equivalent", "element is never in candidate"),
     ("C03", MESH, "                if (x, y) in self.shading:\n                    break", "                if (y, x) in self.shading:\n                    break", "caught", "x/y swapped"),
